@@ -264,9 +264,9 @@ fn c16_strings(cfg: &Cfg) -> Sink {
 }
 pub fn c16(cfg: &Cfg) -> i32 {
     let mut sink = c16_strings(cfg);
-    let mut rep = report("strings_judged", "W10: the value spaces completely (263 actions, 64 squares with all conversions, 6 pieces, 4 directions, 20k bitboards for map_bit_board_to_squares); every string of length 0..4 over a 36-symbol hostile alphabet (1 727 605 strings) and every printable-ASCII string of length 0..3 (866 496), each fed to the Action, Square, Piece and Direction parsers and compared with a reference grammar; random longer strings and one-edit near-misses of valid actions. Run in the monitor profile and again in a plain release child. distinct_nontrivial = distinct random/near-miss strings (the exhaustive part is distinct by construction and reported separately).", vec![floor("strings_judged", 2_500_000, 2_500_000), floor("exhaustive_hostile_alphabet_len_le_4", 1_727_605, 1_727_605), floor("exhaustive_printable_ascii_len_le_3", 866_496, 866_496), floor("values_judged", 337, 337), floor("action_accepted", 300, 300), floor("random_strings", 500_000, 50_000_000)], &["the reference grammar in model.rs (parse_*_ref) is the statement of the notation"]);
+    let mut rep = report("strings_judged", "W10: the value spaces completely (263 actions, 64 squares with all conversions, 6 pieces, 4 directions, 20k bitboards for map_bit_board_to_squares); every string of length 0..4 over a 42-symbol hostile alphabet (3 187 591 strings; includes characters equal to valid symbols modulo 256) and every printable-ASCII string of length 0..3 (866 496), each fed to the Action, Square, Piece and Direction parsers and compared with a reference grammar; random longer strings and one-edit near-misses of valid actions. Run in the monitor profile and again in a plain release child. distinct_nontrivial = distinct random/near-miss strings (the exhaustive part is distinct by construction and reported separately).", vec![floor("strings_judged", 4_000_000, 4_000_000), floor("exhaustive_hostile_alphabet_len_le_4", 3_187_591, 3_187_591), floor("exhaustive_printable_ascii_len_le_3", 866_496, 866_496), floor("values_judged", 337, 337), floor("action_accepted", 300, 300), floor("random_strings", 500_000, 50_000_000)], &["the reference grammar in model.rs (parse_*_ref) is the statement of the notation"]);
     rep.exhaustive = Some(false);
-    rep.extra.insert("exhaustive_parts".into(), json!("all strings of length <= 4 over the 36-symbol alphabet; all printable-ASCII strings of length <= 3; all 263 + 64 + 6 + 4 values"));
+    rep.extra.insert("exhaustive_parts".into(), json!("all strings of length <= 4 over the 42-symbol alphabet; all printable-ASCII strings of length <= 3; all 263 + 64 + 6 + 4 values"));
     match run_plain_child(cfg, "C16-strings") {
         Ok(child) => {
             absorb_child(&mut sink, &child, "C16");
